@@ -234,6 +234,7 @@ theorem C01_clone (c : Ctor) (v : GoVal) (h : Heap) (hty : HasTy c.param v) (hwf
     have hb : ∀ a', built c (.ptr t (some a')) = .some c.param (.ptr t (some a')) false true := by
       intro a'; cases c <;> simp [built, absent, Ctor.param]
     obtain ⟨x, hx, hxt⟩ := hwf t a rfl
+    have hif : isIfaceTy t = false := typeOf_not_iface hxt
     have ha : a < h.length := by
       rcases Nat.lt_or_ge a h.length with h1 | h1
       · exact h1
@@ -248,7 +249,7 @@ theorem C01_clone (c : Ctor) (v : GoVal) (h : Heap) (hty : HasTy c.param v) (hwf
     have hnew : ((h ++ [zeroOf t]).set h.length x)[h.length]? = some x := by simp
     refine ⟨(h ++ [zeroOf t]).set h.length x, built c (.ptr t (some h.length)), mk_eq c _, ?_, ?_, ?_, ?_, ?_, ?_, ?_, hfr, ?_⟩
     · rw [hb, hb]
-      simp [MaybeV.clone, cloneTo, MaybeV.isNil, MaybeV.unwrap, valueOf, RV.kind, kindOf, RV.elem, hx, RV.type,
+      simp [MaybeV.clone, cloneTo, MaybeV.isNil, MaybeV.unwrap, valueOf, RV.kind, kindOf, RV.elem, hx, RV.type, hif,
         hxt, rvNew, RV.set, hz, bind, Except.bind, pure, Except.pure]
       cases hT : c.param <;>
         simp [zeroOf, valueOf, RV.kind, kindOf, RV.isNil, RV.interface, assertTy, hT ▸ himp', justGenerics_eq, absent,
@@ -291,9 +292,10 @@ theorem toPtr_ok (c : Ctor) (v : GoVal) (h : Heap) (hwf : WF h v) : ∃ r, (buil
       cases p with
       | none => simp [absent] at hab
       | some a =>
-        obtain ⟨x, hx, _⟩ := hwf t a rfl
-        simp only [MaybeV.toPtr, fpIsPtr, fpKind, valueOf, RV.kind, kindOf, indirect, RV.elem, hx, RV.interface, bind,
-          Except.bind, pure, Except.pure, Bool.not_false, Bool.and_true, decide_true, if_true]
+        obtain ⟨x, hx, hxt⟩ := hwf t a rfl
+        have hif : isIfaceTy t = false := typeOf_not_iface hxt
+        simp only [MaybeV.toPtr, fpIsPtr, fpKind, valueOf, RV.kind, kindOf, indirect, RV.elem, hx, hif, RV.interface, bind,
+          Except.bind, pure, Except.pure, Bool.not_false, Bool.and_true, decide_true, if_true, Bool.false_eq_true, if_false]
         split
         · exact ⟨_, rfl⟩
         · split <;> exact ⟨_, rfl⟩
@@ -341,6 +343,7 @@ theorem cloneTo_ptr_ok (T t : Ty) (a : Nat) (h : Heap) (d x : GoVal) (hx : h[a]?
     rw [implementsTy_ptr _ _ _ (some a)]; exact himp
   have hz : typeOf? (zeroOf t) = some t := by
     cases x <;> simp [typeOf?] at hxt <;> subst hxt <;> rfl
+  have hif : isIfaceTy t = false := typeOf_not_iface hxt
   have hfr : ∀ b, b < h.length → ((h ++ [zeroOf t]).set h.length x)[b]? = h[b]? := by
     intro b hb'
     rw [List.getElem?_set_ne (by omega), List.getElem?_append_left hb']
@@ -348,7 +351,7 @@ theorem cloneTo_ptr_ok (T t : Ty) (a : Nat) (h : Heap) (d x : GoVal) (hx : h[a]?
   | ptr t' p =>
     cases p with
     | none =>
-      simp [cloneTo, MaybeV.isNil, MaybeV.unwrap, valueOf, RV.kind, kindOf, RV.elem, hx, RV.type, hxt, rvNew, RV.set, hz,
+      simp [cloneTo, MaybeV.isNil, MaybeV.unwrap, valueOf, RV.kind, kindOf, RV.elem, hx, hif, RV.type, hxt, rvNew, RV.set, hz,
         RV.isNil, RV.interface, assertTy, himp', justGenerics_eq, bind, Except.bind, pure, Except.pure]
     | some b =>
       obtain ⟨y, hy, hyt⟩ := hwd t' b rfl
@@ -359,10 +362,10 @@ theorem cloneTo_ptr_ok (T t : Ty) (a : Nat) (h : Heap) (d x : GoVal) (hx : h[a]?
         · exact h1
         · rw [List.getElem?_eq_none h1] at hy; cases hy
       have hfr' : (h ++ [x])[b]? = some y := by rw [List.getElem?_append_left hb]; exact hy
-      simp [cloneTo, MaybeV.isNil, MaybeV.unwrap, valueOf, RV.kind, kindOf, RV.elem, hx, RV.type, hxt, rvNew, RV.set, hz,
+      simp [cloneTo, MaybeV.isNil, MaybeV.unwrap, valueOf, RV.kind, kindOf, RV.elem, hx, hif, RV.type, hxt, rvNew, RV.set, hz,
         RV.isNil, hfr', hyt, justGenerics_eq, bind, Except.bind, pure, Except.pure]
   | _ =>
-    simp [cloneTo, MaybeV.isNil, MaybeV.unwrap, valueOf, RV.kind, kindOf, RV.elem, hx, RV.type, hxt, rvNew, RV.set, hz,
+    simp [cloneTo, MaybeV.isNil, MaybeV.unwrap, valueOf, RV.kind, kindOf, RV.elem, hx, hif, RV.type, hxt, rvNew, RV.set, hz,
       RV.isNil, RV.interface, assertTy, himp', justGenerics_eq, bind, Except.bind, pure, Except.pure]
 
 /-- what a caller must respect for the two observers that take more than a plain value: a `FlatMap` callback that
